@@ -393,7 +393,7 @@ def verify_function(spec, key, cfg, tier, seed, root=None, sid=None, differentia
         return results
     pin = src.pin()
     bv = C.mode.startswith("bv")
-    timeout = 20000 if tier == "quick" else 120000
+    timeout = 90000 if tier == "quick" else 240000  # wall-clock budgets sized for a loaded 16-core machine (verdicts must not flip under load)
     # ---- VC generation
     gen_err = None
     vcs = []
